@@ -21,7 +21,14 @@ definitions `IsTP`, `IsUnital`, `IsHP`, `IsPositive`, `IsCP` (all amplifications
    range: depolarizing, dephasing, reduction map, Choi map, (generalized) amplitude damping, phase damping,
    bit flip, Pauli channels.
 
-Extremality (Choi's criterion) is cited, not proved; `extremalDecide` evaluates it exactly.
+4. **Ties** — the model functions the driver runs denote the specification objects: `choiOfPairs_eq_choi`,
+   `choiOfArg_denotes` (Kraus list → Choi matrix), `actOfChoi_eq`, `depolAct_eq_spec`, … (direct-application
+   formulas), `amplitude_damping_model_apply`, `pauliChoi_eq`; and the one-sided positivity test:
+   `positive_of_choi_psd`, `not_positive_of_product_witness`.
+
+Extremality (Choi's criterion) is cited, not proved; `extremalDecide` evaluates it exactly on a basis of
+`span{K_i}`.  The exact rank (`rankQ`, Gauss–Jordan over `ℚ[i]`) is executable only; `choiRank_le_kraus` bounds the
+Choi rank by the number of Kraus operators.
 -/
 
 section Characterisations
